@@ -25,17 +25,19 @@ RULE = (
 ASSUMPTIONS = ["a naive datetime denotes local time (datetime.fromtimestamp / datetime.now), as the file stores produce and the documentation passes",
                "tz database present under /usr/share/zoneinfo"]
 
-ZONES = ["UTC", "America/New_York", "Europe/Berlin", "Asia/Kolkata", "Pacific/Chatham", "Australia/Lord_Howe", "Pacific/Kiritimati", "America/St_Johns"]
+# Europe/London and Europe/Lisbon: standard offset 0 (time.timezone == 0) but summer time; Africa/Casablanca: "negative DST"
+ZONES = ["UTC", "America/New_York", "Europe/Berlin", "Asia/Kolkata", "Pacific/Chatham", "Australia/Lord_Howe", "Pacific/Kiritimati", "America/St_Johns",
+         "Europe/London", "Europe/Lisbon", "Africa/Casablanca", "Asia/Tokyo"]
 OTHER = ["Asia/Tokyo", "America/Los_Angeles", "Europe/London", "Australia/Sydney", "America/Sao_Paulo"]
 
 
 def gen_cases(tier, seed):
-    per_zone = 400 if tier == "quick" else 15000
+    per_zone = 300 if tier == "quick" else 10000
     out = []
     for z in ZONES:
         for i in range(per_zone):
             s = env.seed_for(seed, ID, tier, z, i)
-            out.append({"seed": s, "zone": z, "mode": "file" if s % 9 == 0 else "mem"})
+            out.append({"seed": s, "zone": z, "mode": "file" if s % 5 == 0 else "mem"})
     return out
 
 
@@ -178,7 +180,7 @@ def run_case(desc):
 def run_file(desc, rng, zone):
     """Real JsonFileStore files (naive local modified times from the file system) + aware/naive fresh_time."""
     import uberjob
-    from uberjob.stores import JsonFileStore
+    from uberjob.stores import JsonFileStore, LiteralSource, ModifiedTimeSource, PathSource
 
     d = tempfile.mkdtemp(prefix="vmon-c18-")
     try:
@@ -199,10 +201,19 @@ def run_file(desc, rng, zone):
         for s_, t, v in zip(stores, ts, (1, 2, 3)):
             s_.write(v)
             os.utime(s_.path, (t, t))
+        # the source is a file store, or one of the bundled stores that take / report a datetime handed in by the user in any representation
+        src_kind = rng.choice(["json", "json", "mts", "lit", "path"])
+        src_rep = rand_rep(rng, 0.3)
+        if src_kind == "mts":
+            stores[0] = ModifiedTimeSource(represent(ts[0], src_rep))
+        elif src_kind == "lit":
+            stores[0] = LiteralSource(1, represent(ts[0], src_rep))
+        elif src_kind == "path":
+            stores[0] = PathSource(paths[0])
         a = reg.source(plan, stores[0])
-        b = plan.call(lambda x: x + 1, a)
+        b = plan.call(lambda x: 2, a)
         reg.add(b, stores[1])
-        c = plan.call(lambda x: x + 1, b)
+        c = plan.call(lambda x: 3, b)
         reg.add(c, stores[2])
         fresh_epoch = fresh_rep = None
         if rng.random() < 0.7:
@@ -219,8 +230,9 @@ def run_file(desc, rng, zone):
         bad = None
         if rebuilt != want:
             bad = f"files rewritten {sorted(rebuilt)} but the instants say {sorted(want)}"
-        info = {"zone": zone, "style": kind, "file_mtimes_epoch": ts, "fresh": [fresh_epoch, fresh_rep], "expected_rebuilt": sorted(want)}
-        res = {"status": "ok", "counters": {"scenarios": 1, "file_scenarios": 1, f"zone_{zone}": 1, f"style_{kind}": 1,
+        info = {"zone": zone, "style": kind, "file_mtimes_epoch": ts, "fresh": [fresh_epoch, fresh_rep], "expected_rebuilt": sorted(want),
+                "source": [src_kind, src_rep if src_kind in ("mts", "lit") else "file"]}
+        res = {"status": "ok", "counters": {"scenarios": 1, "file_scenarios": 1, f"zone_{zone}": 1, f"style_{kind}": 1, f"file_source_{src_kind}": 1,
                                              "mixed_representation_scenarios": int(fresh_rep is not None and fresh_rep[0] != "naive_local")},
                "sets": {"representations": ["file_naive_local"] + ([fresh_rep[0]] if fresh_rep else [])},
                "nontrivial": zone != "UTC" and fresh_rep is not None and fresh_rep[0] != "naive_local",
